@@ -42,6 +42,12 @@ def obligations(tier):
                      defs=["OP=%d" % op], unwind=5, cut_loops=SPIN, object_bits=11, backend="cadical", remove_bodies=WR,
                      encodes=["ABTI_thread_init_pool", "ABTI_thread_set_associated_pool", "ABTI_unit_set_associated_pool", "ABTI_thread_unset_associated_pool", "pool_push_threads_ex", "ABTI_unit_map_thread", "ABTI_unit_unmap_thread"],
                      bounds="one work unit, 3 pools, one operation", symbolic="source pool, target pool"))
+    for op, nm in [(0, "pop"), (1, "pop_many"), (2, "push"), (3, "is_empty")]:
+        o.append(Obl("legacy_" + nm, "C14/legacy.c", "adapters of legacy (ABT_pool_def) user pools in pool.c, %s: exactly the units the user pool hands out are translated and returned -- for pop_many min(len, size) units and not one more taken out of the pool; pushes reach the pool once each, in order; emptiness = size 0" % nm,
+                     defs=["OP=%d" % op], unwind=6, object_bits=10, backend="cadical", no_std=["--pointer-overflow-check"],
+                     restrict_fp=[("pool_push_wrapper.function_pointer_call.1", ["u_push"]), ("pool_push_many_wrapper.function_pointer_call.1", ["u_push"])] if op == 2 else [],
+                     encodes=["pool_pop_wrapper", "pool_pop_wait_wrapper", "pool_pop_many_wrapper", "pool_push_wrapper", "pool_push_many_wrapper", "pool_is_empty_wrapper", "pool_get_size_wrapper"],
+                     bounds="user pool of 0..4 units, buffer length 0..4", symbolic="pool size, buffer length, which variant"))
     return o
 
 MANIFEST_ENTRY = {
